@@ -54,6 +54,9 @@ def parseOp (ws : List String) : Option Op :=
     | some i, some fo, some st, some v, some f => some (.upgrade i fo st v (((kv rest "ct").bind b01).getD false) f)
     | _, _, _, _, _ => none
   | ["refresh"] => some .refresh
+  | ["refresh-full"] => some .refreshFull
+  | ["restart-outside", i] => i.toNat?.map .restartOutside
+  | ["die-outside", i] => i.toNat?.map .kill
   | ["kill", i] => i.toNat?.map .kill
   | ["flaky", i, b] =>
     match i.toNat?, b01 b with
@@ -76,7 +79,7 @@ def insertBy {α : Type} (key : α → Nat) (x : α) : List α → List α
 def sortBy {α : Type} (key : α → Nat) (xs : List α) : List α := xs.foldl (fun acc x => insertBy key x acc) []
 
 def svcS (s : Svc) : String :=
-  s!" {s.number}/{s.number}/{s.number}:{statusS s.status}:pid={optS s.pid}:np={optS s.nodePort}:mp={optS s.metricsPort}:rp={s.rpcPort}:v={s.version}"
+  s!" {s.number}/{s.number}/{s.number}:{statusS s.status}:pid={optS s.pid}:np={optS s.nodePort}:mp={optS s.metricsPort}:rp={s.rpcPort}:v={s.version}:cp={optS s.peers}"
 
 /-- in-memory registry, registry file, simulated OS -/
 def dump (s : Sys) : String :=
